@@ -3,7 +3,8 @@
  1 translate   include/utap/range.h -> lean/UtapModel/Gen/RangeGen.lean      (tie T: model regenerated every run)
  2 prove       UtapModel.Props.C18: membership theorems for every operation, all integers, by omega/nlinarith
  3 correspond  generated model (drv_c18) vs real range_t<int32_t> on the same op lines  (validates the translator)
- 4 search      direct set-semantics oracle on the implementation: exhaustive int8_t, boundary int32_t / double
+ 4 search      direct set-semantics oracle on the implementation: exhaustive int8_t and uint8_t, boundary int32_t / uint32_t /
+               uint64_t / double, + - * of the 32- and 64-bit integer types against 128-bit arithmetic
 """
 import os
 import sys
@@ -59,7 +60,8 @@ def gen_ops(ctx):
 
 def run_oracle(ctx, hb):
     exe = core.build_harness(hb, "c18", ["c18.cpp"])
-    rc, out, err, dt = core.run_exe(exe, ["oracle", "12" if not ctx.thorough else "36"], timeout=3000)
+    # window of the exhaustive interval pairs (int8_t: [-w,w], uint8_t: [0,2w]); seed of the sampled 32/64-bit operands
+    rc, out, err, dt = core.run_exe(exe, ["oracle", "12" if not ctx.thorough else "36", str(ctx.rng.randrange(1, 2 ** 31))], timeout=3000)
     fails = [l for l in out.split("\n") if l.startswith("FAIL ")]
     summary = [l for l in out.split("\n") if l.startswith("SUMMARY")]
     if rc != 0 or not summary:
@@ -150,7 +152,8 @@ def run(ctx):
     cov["evaluations"] = len(lines) + cases
     cov["distinct_nontrivial"] = len(set(lines))
     cov["rule"] = "correspondence: distinct operation lines (operation + operand intervals) run on range_t<int32_t> and on the generated model; oracle cases (exhaustive small domains) are counted in evaluations only"
-    cov["exhaustive_parts"] = "oracle: all a<=b, e in int8_t for scalar operations; all a<=b,c<=d in [-12,12] (thorough: [-36,36]) for interval pairs"
+    cov["exhaustive_parts"] = ("oracle: all a<=b, e in int8_t and in uint8_t for scalar operations; all a<=b,c<=d in [-12,12] (uint8_t: [0,24]; "
+                               "thorough: [-36,36] / [0,72]) for interval pairs")
 
 
 def replay(ctx, path):
